@@ -259,6 +259,14 @@ func c17Probe(ctx *core.Ctx, ti int, t *rt.Table, router string, twin, filtered 
 			}
 			// OPTIONS through the filter
 			oreq := rt.Req{Method: "OPTIONS", Path: u, Hdr: hdr}
+			if rr.Chance(1, 3) {
+				// the OPTIONS filter answers for the URL, whatever method a browser announces
+				oh := map[string]string{"Access-Control-Request-Method": rr.Pick(append([]string{"FOO"}, universe...))}
+				for k, v := range hdr {
+					oh[k] = v
+				}
+				oreq.Hdr = oh
+			}
 			oo := rt.Run(filtered, rt.Dispatch, &oreq)
 			ctx.Eval(1)
 			ctx.Count("options_checked", 1)
